@@ -187,7 +187,10 @@ impl Exec {
     }
 
     fn open(&mut self) {
+        // the collector is owned from its very first task (Store::new can already queue work)
+        xs::verif::set_gc_default_gated(true);
         let store = Store::new(self.dir.clone());
+        xs::verif::set_gc_default_gated(false);
         store.verif_hooks().gc_set_gated(true);
         let rx = self.rt.block_on(
             store.read(
